@@ -1,12 +1,83 @@
-(* C08 - provisional: replaced when the per-node proof files are complete. *)
-From Coq Require Import List ZArith.
+(* C08 - time windows conserve elements and honour their deadline.
+   Statements restated from the proof files by harness/mkprops.py; every theorem quantifies over ALL action
+   lists (schedules of emits, consumer completions, task completions, time advances). *)
+From Coq Require Import List ZArith Bool Arith Permutation Sorted.
 From SZ Require Import Base.Values.
 From SZ Require Import Sync.Nodes.
 From SZ Require Import Async.Core.
-From SZ Require Import Async.Plain.
+From SZ Require Async.TimedWindowProofs.
+From SZ Require Async.PartitionTOProofs.
 Import ListNotations.
 
-Theorem C08_callback_only_at_zero : forall s m r,
-  In r (rfired (rc_release s m 1)) -> In r (rfired s) \/ (rcnt s r - mocc m r <= 0)%Z /\ (1 <= mocc m r)%Z.
-Proof. exact rfired_release_new. Qed.
-Print Assumptions C08_callback_only_at_zero.
+(* from Async.TimedWindowProofs *)
+Section S_tw_conserve_TimedWindowProofs.
+Import SZ.Async.TimedWindowProofs.
+Theorem C08_tw_conserve : forall (i : Z) (sync : bool) (uniq : option ((val -> val) * bool)) (acts : list act) (s : TimedWindow.wst) (outs : list (list (Z * val * list mdi) * list nat)), (0 < i)%Z -> run_steps TimedWindow.timed_window_model (fst (TimedWindow.w_init i sync uniq)) acts = (s, outs) -> uniq = None -> flat_map (fun d : Z * val * list mdi => batch_items (snd (fst d))) (all_deliv (snd (TimedWindow.w_init i sync uniq) :: outs)) ++ map fst (w_items s) = map fst (ins_of acts) /\ flat_map snd (all_deliv (snd (TimedWindow.w_init i sync uniq) :: outs)) ++ flat_map snd (w_items s) = flat_map snd (ins_of acts).
+Proof. exact (@tw_conserve). Qed.
+End S_tw_conserve_TimedWindowProofs.
+Print Assumptions C08_tw_conserve.
+
+(* from Async.TimedWindowProofs *)
+Section S_tw_unique_keys_TimedWindowProofs.
+Import SZ.Async.TimedWindowProofs.
+Theorem C08_tw_unique_keys : forall (i : Z) (sync : bool) (uniq : option ((val -> val) * bool)) (acts : list act) (s : TimedWindow.wst) (outs : list (list (Z * val * list mdi) * list nat)), (0 < i)%Z -> run_steps TimedWindow.timed_window_model (fst (TimedWindow.w_init i sync uniq)) acts = (s, outs) -> forall (key : val -> val) (keep : bool), uniq = Some (key, keep) -> Forall (fun d : Z * val * list mdi => NoDup (map key (batch_items (snd (fst d))))) (all_deliv (snd (TimedWindow.w_init i sync uniq) :: outs)) /\ NoDup (map key (map fst (w_items s))).
+Proof. exact (@tw_unique_keys). Qed.
+End S_tw_unique_keys_TimedWindowProofs.
+Print Assumptions C08_tw_unique_keys.
+
+(* from Async.TimedWindowProofs *)
+Section S_tw_deadline_TimedWindowProofs.
+Import SZ.Async.TimedWindowProofs.
+Theorem C08_tw_deadline : forall (i : Z) (sync : bool) (uniq : option ((val -> val) * bool)) (acts : list act) (s : TimedWindow.wst) (outs : list (list (Z * val * list mdi) * list nat)), (0 < i)%Z -> run_steps TimedWindow.timed_window_model (fst (TimedWindow.w_init i sync uniq)) acts = (s, outs) -> forall u : Z, TimedWindow.w_mode s = TimedWindow.WSleep u -> (TimedWindow.w_now s < u <= TimedWindow.w_now s + i)%Z.
+Proof. exact (@tw_deadline). Qed.
+End S_tw_deadline_TimedWindowProofs.
+Print Assumptions C08_tw_deadline.
+
+(* from Async.TimedWindowProofs *)
+Section S_tw_sync_never_awaits_TimedWindowProofs.
+Import SZ.Async.TimedWindowProofs.
+Theorem C08_tw_sync_never_awaits : forall (i : Z) (sync : bool) (uniq : option ((val -> val) * bool)) (acts : list act) (s : TimedWindow.wst) (outs : list (list (Z * val * list mdi) * list nat)), (0 < i)%Z -> run_steps TimedWindow.timed_window_model (fst (TimedWindow.w_init i sync uniq)) acts = (s, outs) -> TimedWindow.w_sync s = true -> exists u : Z, TimedWindow.w_mode s = TimedWindow.WSleep u.
+Proof. exact (@tw_sync_never_awaits). Qed.
+End S_tw_sync_never_awaits_TimedWindowProofs.
+Print Assumptions C08_tw_sync_never_awaits.
+
+(* from Async.PartitionTOProofs *)
+Section S_partition_size_PartitionTOProofs.
+Import SZ.Async.PartitionTOProofs.
+Theorem C08_partition_size : forall (n : nat) (to : option Z) (key : option (val -> val)) (sync : bool) (acts : list act) (s : PartitionTO.pst) (outs : list (list (Z * val * list mdi) * list nat)), 1 <= n -> (forall t : Z, to = Some t -> (0 < t)%Z) -> run_steps PartitionTO.partition_model (PartitionTO.p_init n to key sync) acts = (s, outs) -> Forall (fun d : Z * val * list mdi => exists vs : list val, snd (fst d) = VTup vs /\ 1 <= length vs <= n) (all_deliv outs).
+Proof. exact (@partition_size). Qed.
+End S_partition_size_PartitionTOProofs.
+Print Assumptions C08_partition_size.
+
+(* from Async.PartitionTOProofs *)
+Section S_partition_conserve_PartitionTOProofs.
+Import SZ.Async.PartitionTOProofs.
+Theorem C08_partition_conserve : forall (n : nat) (to : option Z) (key : option (val -> val)) (sync : bool) (acts : list act) (s : PartitionTO.pst) (outs : list (list (Z * val * list mdi) * list nat)), 1 <= n -> (forall t : Z, to = Some t -> (0 < t)%Z) -> run_steps PartitionTO.partition_model (PartitionTO.p_init n to key sync) acts = (s, outs) -> key = None -> flat_map (fun d : Z * val * list mdi => tuple_items (snd (fst d))) (all_deliv outs) ++ p_items s = map fst (ins_of acts).
+Proof. exact (@partition_conserve). Qed.
+End S_partition_conserve_PartitionTOProofs.
+Print Assumptions C08_partition_conserve.
+
+(* from Async.PartitionTOProofs *)
+Section S_partition_timer_inv_gen_PartitionTOProofs.
+Import SZ.Async.PartitionTOProofs.
+Theorem C08_partition_timer_inv_gen : forall (n : nat) (to : option Z) (key : option (val -> val)) (sync : bool) (acts : list act) (s : PartitionTO.pst) (outs : list (list (Z * val * list mdi) * list nat)), 1 <= n -> (forall t : Z, to = Some t -> (0 < t)%Z) -> run_steps PartitionTO.partition_model (PartitionTO.p_init n to key sync) acts = (s, outs) -> forall t : Z, to = Some t -> NoDup (map fst (PartitionTO.p_timers s)) /\ (forall k : val, In k (map fst (PartitionTO.p_timers s)) <-> fst (PartitionTO.p_get k (PartitionTO.p_bufs s)) <> []) /\ Forall (fun kd : val * Z => (PartitionTO.p_now s < snd kd <= PartitionTO.p_now s + t)%Z) (PartitionTO.p_timers s).
+Proof. exact (@partition_timer_inv_gen). Qed.
+End S_partition_timer_inv_gen_PartitionTOProofs.
+Print Assumptions C08_partition_timer_inv_gen.
+
+(* from Async.PartitionTOProofs *)
+Section S_partition_buf_bound_PartitionTOProofs.
+Import SZ.Async.PartitionTOProofs.
+Theorem C08_partition_buf_bound : forall (n : nat) (to : option Z) (key : option (val -> val)) (sync : bool) (acts : list act) (s : PartitionTO.pst) (outs : list (list (Z * val * list mdi) * list nat)), 1 <= n -> (forall t : Z, to = Some t -> (0 < t)%Z) -> run_steps PartitionTO.partition_model (PartitionTO.p_init n to key sync) acts = (s, outs) -> forall k : val, length (fst (PartitionTO.p_get k (PartitionTO.p_bufs s))) < n.
+Proof. exact (@partition_buf_bound). Qed.
+End S_partition_buf_bound_PartitionTOProofs.
+Print Assumptions C08_partition_buf_bound.
+
+(* from Async.PartitionTOProofs *)
+Section S_partition_no_timeout_no_timers_PartitionTOProofs.
+Import SZ.Async.PartitionTOProofs.
+Theorem C08_partition_no_timeout_no_timers : forall (n : nat) (to : option Z) (key : option (val -> val)) (sync : bool) (acts : list act) (s : PartitionTO.pst) (outs : list (list (Z * val * list mdi) * list nat)), 1 <= n -> (forall t : Z, to = Some t -> (0 < t)%Z) -> run_steps PartitionTO.partition_model (PartitionTO.p_init n to key sync) acts = (s, outs) -> to = None -> PartitionTO.p_timers s = [].
+Proof. exact (@partition_no_timeout_no_timers). Qed.
+End S_partition_no_timeout_no_timers_PartitionTOProofs.
+Print Assumptions C08_partition_no_timeout_no_timers.
+
